@@ -7,7 +7,7 @@
    and kills the process) or [Done s' frames].  [http_exec s m path q] is one HTTP request. *)
 From Coq Require Import List ZArith NArith Bool String.
 From NSQV Require Import gen.LookupdTables model.Judge model.Names model.Lookupd model.LookupSpec model.LookupProto
-  proofs.LookupdBase proofs.LookupdRefine proofs.LookupdShape proofs.LookupProtoProofs.
+  proofs.LookupdBase proofs.LookupdRefine proofs.LookupdShape proofs.LookupProtoProofs proofs.LookupHttpFrame.
 Import ListNotations.
 
 (* ---- no byte sequence on the TCP port crashes the daemon *)
@@ -173,6 +173,68 @@ Theorem C15_http_readonly : forall s m path q s' st,
 Proof. exact http_readonly. Qed.
 Print Assumptions C15_http_readonly.
 
+(* ---- HTTP: the admin requests change nothing but what they name.  A create request -
+   whatever it names, also a topic / channel that exists and has producers - leaves every
+   (registration, producer, tombstone flag) entry of /debug, every node, every tombstone mark
+   and every /lookup listing as it was and removes no key *)
+Theorem C15_http_create_keeps_entries : forall s m path q s' st,
+  path = "/topic/create"%string \/ path = "/channel/create"%string ->
+  http_exec s m path q = (s', st) ->
+  q_debug s' = q_debug s /\
+  (g_now (abs s') = g_now (abs s) /\ g_nodes (abs s') = g_nodes (abs s) /\
+   (forall k p, g_prod (abs s') k p = g_prod (abs s) k p) /\
+   (forall t p, g_tomb (abs s') t p = g_tomb (abs s) t p) /\
+   (forall k, g_key (abs s) k = true -> g_key (abs s') k = true)).
+Proof. exact http_create_frame. Qed.
+Print Assumptions C15_http_create_keeps_entries.
+
+Theorem C15_http_create_keeps_lookup : forall s m path q s' st inactive lifetime t p,
+  path = "/topic/create"%string \/ path = "/channel/create"%string ->
+  http_exec s m path q = (s', st) ->
+  lookup_producer inactive lifetime (abs s') t p = lookup_producer inactive lifetime (abs s) t p.
+Proof. exact http_create_lookup. Qed.
+Print Assumptions C15_http_create_keeps_lookup.
+
+(* a delete request adds and alters nothing (no key, no entry, no mark); keys of another
+   topic / other than the named channel key keep all their entries; marks of other topics stay *)
+Theorem C15_http_delete_topic_frame : forall s m q s' st,
+  http_exec s m "/topic/delete" q = (s', st) ->
+  g_now (abs s') = g_now (abs s) /\ g_nodes (abs s') = g_nodes (abs s) /\
+  (forall k, g_key (abs s') k = true -> g_key (abs s) k = true) /\
+  (forall k p, g_prod (abs s') k p = true -> g_prod (abs s) k p = true) /\
+  (forall u p, g_tomb (abs s') u p = None \/ g_tomb (abs s') u p = g_tomb (abs s) u p) /\
+  (forall k, q_topic q <> Some (r_key k) ->
+     g_key (abs s') k = g_key (abs s) k /\ forall p, g_prod (abs s') k p = g_prod (abs s) k p) /\
+  (forall u p, q_topic q <> Some u -> g_tomb (abs s') u p = g_tomb (abs s) u p).
+Proof. exact http_delete_topic_frame. Qed.
+Print Assumptions C15_http_delete_topic_frame.
+
+Theorem C15_http_delete_channel_frame : forall s m q s' st,
+  http_exec s m "/channel/delete" q = (s', st) ->
+  g_now (abs s') = g_now (abs s) /\ g_nodes (abs s') = g_nodes (abs s) /\
+  (forall k, g_key (abs s') k = true -> g_key (abs s) k = true) /\
+  (forall k p, g_prod (abs s') k p = true -> g_prod (abs s) k p = true) /\
+  (forall u p, g_tomb (abs s') u p = None \/ g_tomb (abs s') u p = g_tomb (abs s) u p) /\
+  (forall k, q_chan_key q <> Some k ->
+     g_key (abs s') k = g_key (abs s) k /\ forall p, g_prod (abs s') k p = g_prod (abs s) k p) /\
+  (forall u p, ~ False -> g_tomb (abs s') u p = g_tomb (abs s) u p).
+Proof. exact http_delete_channel_frame. Qed.
+Print Assumptions C15_http_delete_channel_frame.
+
+(* a tombstone request keeps every key and every entry; it sets a mark only for a producer
+   of the named topic whose broadcast_address:http_port is the named node *)
+Theorem C15_http_tombstone_frame : forall s m q s' st,
+  http_exec s m "/topic/tombstone" q = (s', st) ->
+  g_now (abs s') = g_now (abs s) /\ g_nodes (abs s') = g_nodes (abs s) /\
+  (forall k, g_key (abs s') k = g_key (abs s) k) /\
+  (forall k p, g_prod (abs s') k p = g_prod (abs s) k p) /\
+  (forall u p, g_tomb (abs s') u p = g_tomb (abs s) u p \/
+               (q_topic q = Some u /\ registered (abs s) p u = true /\
+                exists node, q_node q = Some node /\ g_node_matches (abs s) node p = true /\
+                             g_tomb (abs s') u p = Some (g_now (abs s)))).
+Proof. exact http_tombstone_frame. Qed.
+Print Assumptions C15_http_tombstone_frame.
+
 (* ---- non-vacuity: concrete streams *)
 Definition s_by : state :=
   run init [Identify 0%N (mkInfo [98]%N 4150%Z 4151%Z [49]%N); Register 0%N [98; 121]%N [99]%N].
@@ -197,3 +259,24 @@ Example C15_witness :
   http_exec s_by "GET" "/topic/delete" (QArgs (Some [98; 121]%N) None None) = (s_by, SCode 405) /\
   fst (http_exec s_by "POST" "/topic/delete" (QArgs (Some [98; 121]%N) None None)) <> s_by.
 Proof. split; [apply wf_run, wf_init|]. vm_compute. repeat split; try reflexivity. discriminate. Qed.
+
+(* the admin requests on a topic that is registered: create is answered 200 and the
+   producer's entries are all still there; tombstone of its node sets the mark; delete
+   removes the entries *)
+Example C15_http_frame_witness :
+  q_debug s_by <> [] /\
+  (exists s1, http_exec s_by "POST" "/topic/create" (QArgs (Some [98; 121]%N) None None) = (s1, SCode 200)
+              /\ q_debug s1 = q_debug s_by) /\
+  (exists s1, http_exec s_by "POST" "/channel/create" (QArgs (Some [98; 121]%N) (Some [99]%N) None) = (s1, SCode 200)
+              /\ q_debug s1 = q_debug s_by) /\
+  (exists s1, http_exec s_by "POST" "/channel/create" (QArgs (Some [98; 121]%N) (Some [110]%N) None) = (s1, SCode 200)
+              /\ q_debug s1 = q_debug s_by /\ s1 <> s_by) /\
+  g_tomb (abs (fst (http_exec s_by "POST" "/topic/tombstone" (QArgs (Some [98; 121]%N) None (Some [98; 58; 52; 49; 53; 49]%N)))))
+         [98; 121]%N 0%N = Some 0%Z /\
+  g_tomb (abs s_by) [98; 121]%N 0%N = None /\
+  g_prod (abs s_by) (topic_key [98; 121]%N) 0%N = true /\
+  g_prod (abs (fst (http_exec s_by "POST" "/topic/delete" (QArgs (Some [98; 121]%N) None None)))) (topic_key [98; 121]%N) 0%N = false.
+Proof.
+  vm_compute. repeat split; try reflexivity; try discriminate;
+    eexists; (split; [reflexivity|]); try (split; [reflexivity|discriminate]); reflexivity.
+Qed.
